@@ -50,12 +50,23 @@ OM_INV = [("inv_ctx", "om_ctx_wf(self)"), ("inv_lm_acc", "lm_acc(om_lm(self))"),
 specfun("rounded_bu", ["cfg", "pair", "s", "x"],
         "ite(s == pair.base_symbol, q_down(x, cfg_pair_info(cfg, pair).base_precision), "
         "ite(s == pair.quote_symbol, q_he(x, cfg_pair_info(cfg, pair).quote_precision), x))")
+specfun("rb_adj_quote", ["m", "a", "q", "has_base", "pair"],
+        "ite(has_base and q_down(a, cfg_pair_info(om_cfg(m), pair).base_precision) != a, q * q_down(a, cfg_pair_info(om_cfg(m), pair).base_precision) / a, q)")
 contract(OM + "_round_balance_updates", props=P + ["C04"], types={"balance_updates": "ValueMap"},
          requires=[("pair", "pair.base_symbol != pair.quote_symbol")],
          ensures=[("configured", "cfg_has_pair(om_cfg(self), pair)"),
                   # stated per symbol (base / quote / every other one) so that only two rounded terms exist
                   ("base", "at(balance_updates, pair.base_symbol) == q_down(old(at(balance_updates, pair.base_symbol)), cfg_pair_info(om_cfg(self), pair).base_precision)"),
-                  ("quote", "at(balance_updates, pair.quote_symbol) == q_he(old(at(balance_updates, pair.quote_symbol)), cfg_pair_info(om_cfg(self), pair).quote_precision)"),
+                  # C04 (statement-derived): rounding never makes the effective price of a fill worse or better than a bound
+                  # the unrounded amounts respected, beyond half a unit of the quote precision
+                  ("price_kept", "forall(lambda L=Real: implies(L >= 0, "
+                                 "implies(abs(old(at(balance_updates, pair.quote_symbol))) <= L * abs(old(at(balance_updates, pair.base_symbol))), "
+                                 "        abs(at(balance_updates, pair.quote_symbol)) <= L * abs(at(balance_updates, pair.base_symbol)) + unit(cfg_pair_info(om_cfg(self), pair).quote_precision) / 2) "
+                                 "and implies(abs(old(at(balance_updates, pair.quote_symbol))) >= L * abs(old(at(balance_updates, pair.base_symbol))), "
+                                 "        abs(at(balance_updates, pair.quote_symbol)) >= L * abs(at(balance_updates, pair.base_symbol)) - unit(cfg_pair_info(om_cfg(self), pair).quote_precision) / 2)))"),
+                  # the quote amount follows the base amount when that is truncated (the price is kept), then it is rounded
+                  ("quote", "at(balance_updates, pair.quote_symbol) == q_he(rb_adj_quote(self, old(at(balance_updates, pair.base_symbol)), old(at(balance_updates, pair.quote_symbol)), "
+                            "old(pair.base_symbol in balance_updates), pair), cfg_pair_info(om_cfg(self), pair).quote_precision)"),
                   ("others", "forall(lambda s=Str: implies(s != pair.base_symbol and s != pair.quote_symbol, at(balance_updates, s) == old(at(balance_updates, s))))"),
                   ("pruned", "forall(lambda s=Str: (s in balance_updates) == (old(s in balance_updates) and at(balance_updates, s) != 0))"),
                   ("grid", "grid(at(balance_updates, pair.base_symbol), cfg_pair_info(om_cfg(self), pair).base_precision) "
@@ -318,6 +329,11 @@ contract(OM + "_process_order", props=P + ["C04", "C11"],
          ],
          # An update rule may fail with an error other than NotEnoughBalance (e.g. NoPrice from the margin rule); the fill is
          # then abandoned atomically: nothing of it has happened.
+         # C04: a limit / stop-limit order never trades at an effective price worse than its limit, up to half a unit of the
+         # quote precision -- stated on the very maps that are recorded as the fill (amounts after rounding)
+         site_pre={"add_fill#0": [("limit_bound", "implies(typeis(order, 'LimitOrder') or typeis(order, 'StopLimitOrder'), "
+                                                  "(abs(at(balance_updates, oq(order))) <= order._limit_price * abs(at(balance_updates, ob(order))) + unit(qp_of(self, order)) / 2) if is_buy(order) "
+                                                  "else (abs(at(balance_updates, oq(order))) >= order._limit_price * abs(at(balance_updates, ob(order))) - unit(qp_of(self, order)) / 2))")]},
          raises={"Error": [("atomic", "unchanged(om_acc(self)) and order._state == old(order._state) and content_unchanged(order._balance_updates, order._fees, order._fills) "
                                       "and liquidity_strategy.used == old(liquidity_strategy.used) "
                                       "and forall(lambda s=Str: GHOST.ledger[s] == old(GHOST.ledger[s]))")]},
